@@ -168,6 +168,10 @@ theorem nexecute_cases (hR : NoRaise sc) (hC : NoCmds sc) (x : Ctx) (tr : TRef) 
       s'.exited = s.exited ++ r.exitNames ∧
       s'.glog = s.glog ++ (.cand tr :: .exec tr ::
         ((pathsOf r.exits).map GEv.exit ++ (pathsOf r.enters).map GEv.enter))) ∨
+    (∃ d r e s', t.dest = some d ∧ resolveTransition cfg.root cfg.root s.conf d = .ok r ∧
+      nexecute sub sc cfg cfg.root x tr t s = .err e s' ∧
+      s'.glog = s.glog ++ (.cand tr :: .exec tr ::
+        ((pathsOf r.exits).map GEv.exit ++ (pathsOf r.enters).map GEv.enter))) ∨
     nexecute sub sc cfg cfg.root x tr t s = .oof := by
   obtain ⟨s1, h1, q1⟩ := ncb sub sc cfg hR hC .prepare x t.prepare (s.emitG (.cand tr))
   obtain ⟨ok, s2, h2, q2⟩ := nec sub sc cfg hR hC x t.conds s1
@@ -189,6 +193,7 @@ theorem nexecute_cases (hR : NoRaise sc) (hC : NoCmds sc) (x : Ctx) (tr : TRef) 
         ((match t.dest with
           | some d => nchangeState sub sc cfg cfg.root x d s4
           | none => .ok () s4).bind fun _ s5 =>
+        (nfinalStage sub sc cfg cfg.root x t.dest s4.conf s5).bind fun _ s5 =>
         (ncallbacks sub sc cfg .after x t.after s5).bind fun _ s6 =>
         (ncallbacks sub sc cfg .afterSC x cfg.afterSC s6).bind fun _ s7 => .ok true s7) := by
       simp only [nexecute, h1, Res.bind, h2, Bool.not_true, Bool.false_eq_true, if_false, h3, h4]
@@ -206,7 +211,7 @@ theorem nexecute_cases (hR : NoRaise sc) (hC : NoCmds sc) (x : Ctx) (tr : TRef) 
       left
       obtain ⟨s7, h7, q7⟩ := htail s4
       refine ⟨rfl, s7, ?_, q7.conf.trans q04.1, q7.exited.trans q04.2.1, q7.glog.trans q04.2.2⟩
-      rw [hpre, hd]; exact h7
+      rw [hpre, hd]; simp only [nfinalStage, Pass.bind_ok]; exact h7
     | some d =>
       right
       cases hr : resolveTransition cfg.root cfg.root s.conf d with
@@ -216,24 +221,48 @@ theorem nexecute_cases (hR : NoRaise sc) (hC : NoCmds sc) (x : Ctx) (tr : TRef) 
         refine ⟨d, e, s4, rfl, ?_, q04.2.2⟩
         rw [hpre, hd]; simp only [nchangeState, hr', Res.bind]
       | oof =>
-        right; right
+        right; right; right
         have hr' : resolveTransition cfg.root cfg.root s4.conf d = .oof := by rw [q04.1]; exact hr
         rw [hpre, hd]; simp only [nchangeState, hr', Res.bind]
       | ok r =>
-        right; left
+        right
         have hr' : resolveTransition cfg.root cfg.root s4.conf d = .ok r := by rw [q04.1]; exact hr
         obtain ⟨s5a, h5a, c5a, g5a⟩ := exitAll_ok sub sc cfg hR hC x r.exits
           { s4 with exited := s4.exited ++ r.exitNames }
         have x5a := Pass2.exitAll_exited sub sc cfg hC x r.exits _ s5a (by rw [h5a]; rfl)
         obtain ⟨s5, h5, c5, g5⟩ := enterAll_ok sub sc cfg hR hC x r.enters { s5a with conf := r.tree }
         have x5 := Pass2.enterAll_exited sub sc cfg hC x r.enters _ s5 (by rw [h5]; rfl)
-        obtain ⟨s7, h7, q7⟩ := htail s5
-        refine ⟨d, r, s7, rfl, hr, ?_, ?_, ?_, ?_⟩
-        · rw [hpre, hd]; simp only [nchangeState, hr', h5a, Pass.bind_ok, h5]
-          exact h7
-        · rw [q7.conf, c5]
-        · rw [q7.exited, x5]; show s5a.exited = _; rw [x5a]; show s4.exited ++ _ = _; rw [q04.2.1]
-        · rw [q7.glog, g5]; show s5a.glog ++ _ = _; rw [g5a]; show s4.glog ++ _ ++ _ = _; rw [q04.2.2]; simp
+        have hx5 : s5.exited = s.exited ++ r.exitNames := by
+          rw [x5]; show s5a.exited = _; rw [x5a]; show s4.exited ++ _ = _; rw [q04.2.1]
+        have hg5 : s5.glog = s.glog ++ (.cand tr :: .exec tr ::
+            ((pathsOf r.exits).map GEv.exit ++ (pathsOf r.enters).map GEv.enter)) := by
+          rw [g5]; show s5a.glog ++ _ = _; rw [g5a]; show s4.glog ++ _ ++ _ = _; rw [q04.2.2]; simp
+        have hpre5 : nexecute sub sc cfg cfg.root x tr t s =
+            ((nfinalStage sub sc cfg cfg.root x (some d) s4.conf s5).bind fun _ s5 =>
+            (ncallbacks sub sc cfg .after x t.after s5).bind fun _ s6 =>
+            (ncallbacks sub sc cfg .afterSC x cfg.afterSC s6).bind fun _ s7 => .ok true s7) := by
+          rw [hpre, hd]; simp only [nchangeState, hr', h5a, Pass.bind_ok, h5]
+        rcases nfinalStage_cases sub sc cfg cfg.root x (some d) s4.conf s5 with hf | ⟨cbs, hf⟩ | ⟨e, _, hf⟩ | hf
+        · left
+          obtain ⟨s7, h7, q7⟩ := htail s5
+          refine ⟨d, r, s7, rfl, hr, ?_, ?_, ?_, ?_⟩
+          · rw [hpre5, hf]; exact h7
+          · rw [q7.conf, c5]
+          · rw [q7.exited, hx5]
+          · rw [q7.glog, hg5]
+        · left
+          obtain ⟨s5', h5', q5'⟩ := ncb sub sc cfg hR hC .onFinal x cbs s5
+          obtain ⟨s7, h7, q7⟩ := htail s5'
+          refine ⟨d, r, s7, rfl, hr, ?_, ?_, ?_, ?_⟩
+          · rw [hpre5, hf, h5']; exact h7
+          · rw [q7.conf, q5'.conf, c5]
+          · rw [q7.exited, q5'.exited, hx5]
+          · rw [q7.glog, q5'.glog, hg5]
+        · right; left
+          refine ⟨d, r, e, s5, rfl, hr, ?_, hg5⟩
+          rw [hpre5, hf]; rfl
+        · right; right
+          rw [hpre5, hf]; rfl
 
 end
 
@@ -605,7 +634,7 @@ theorem ntry_trip {p : SPath} {ps done : List SPath} (hord : Ord (p :: ps)) (hpd
     obtain ⟨hsc, hev, ht, hsrc⟩ := ncandidates_spec hc
     have hmem : (tr, t) ∈ allTrans cfg := trans_mem hts hsc hev ht
     rcases nexecute_cases sub sc cfg hR hC x tr t s with ⟨s1, he, c1, x1, g1⟩ | ⟨hd, s1, he, c1, x1, g1⟩ |
-      ⟨d, e, s1, hd, he, g1⟩ | ⟨d, r, s1, hd, hr, he, c1, x1, g1⟩ | he
+      ⟨d, e, s1, hd, he, g1⟩ | ⟨d, r, s1, hd, hr, he, c1, x1, g1⟩ | ⟨d, r, e, s1, hd, hr, he, g1⟩ | he
     · -- blocked
       simp only [ntry, he, Res.bind, Bool.false_eq_true, if_false]
       have ih := ntry_trip hord hpd rest { s1 with result := some false }
@@ -645,6 +674,12 @@ theorem ntry_trip {p : SPath} {ps done : List SPath} (hord : Ord (p :: ps)) (hpd
         show LInv cfg ps _ (grun cfg (gstep cfg g (.cand tr)) _) _
         rw [gstep_cand]
         exact hg.change hwf hord hpx hmem hsc hd (hreg d hd) hr c1 x1
+    · -- the state change executes and the final check fails (engine error)
+      simp only [ntry, he, Res.bind]
+      refine ⟨_, g1, fun g hg => ?_⟩
+      rcases exec_runs hno hkeys hts hg hpd hpx hc _ (refs_change _ _) with h | ⟨h, _⟩
+      · exact Or.inl h
+      · exact Or.inr ⟨h, trivial⟩
     · simp only [ntry, he, Res.bind]
 
 end
